@@ -27,7 +27,7 @@ oq = bind_repo()
 LEVEL = "exploration"
 
 EPS = 1e-8
-C_TOL = 20.0                      # tolerance = C_TOL * epsrel * N  (DESIGN sec. 2.7)
+C_TOL = 20.0                      # tol = C_TOL * epsrel * N; measured (eigh tree, thorough): dev <= 0.4 eps (1e-8), 1.0 eps (1e-5)
 BATH_TOL = 1e-10
 MIN_INFLUENCE = 0.05
 
